@@ -708,10 +708,15 @@ func (w *Walker) splitCall(fn *ssa.Function) (ssa.Instruction, []*ssa.Return) {
 			if g == nil || g.Blocks == nil || !inLibraryScope(funcPkgPath(g)) || isSpecTypesPkg(funcPkgPath(g)) {
 				continue
 			}
-			if a.effectFree[g] || a.isInlinable(g) || g.Signature.Results().Len() < 1 {
+			if a.isInlinable(g) || g.Signature.Results().Len() < 1 {
 				continue
 			}
-			pureHelper := false
+			// an effect-free helper whose value cannot be stated as one term (a type switch returning a tuple per case)
+			// is explored per return site like a value-verdict helper; other effect-free helpers keep their summaries
+			pureHelper := a.effectFree[g]
+			if pureHelper && g.Signature.Results().Len() < 2 {
+				continue
+			}
 			if g.Object() != nil && g.Object().Exported() {
 				continue // anchors keep their summaries
 			}
@@ -722,7 +727,7 @@ func (w *Walker) splitCall(fn *ssa.Function) (ssa.Instruction, []*ssa.Return) {
 			if sm == nil {
 				continue
 			}
-			if sm.resIdx < 0 && pureHelper {
+			if sm.resIdx >= 0 && pureHelper {
 				continue
 			}
 			if sm.resIdx < 0 {
